@@ -29,6 +29,13 @@ def run(res):
     if rc != 0 or bad or not cases:
         res.mismatches.append({"family": "reader", "error": "harness exit %d" % rc, "stderr": err[-2000:], "bad": bad[:3]})
         return
+    ties = [c for c in cases if "tie_meetings" in c]
+    cases = [c for c in cases if "tie_meetings" not in c]
+    for t in ties:
+        if t.get("oracle_fail"):
+            res.violations.append({"what": t["oracle_fail"], "case": t, "family": "reader/ties", "signature": "reader-tie"})
+    res.add_cov(tie_meetings=sum(t["tie_meetings"] for t in ties),
+                tie_rule="upload handler and RPC handler entered from a common gate with a random skew of 0..12us either way; every meeting must deliver the uploaded bytes and complete the upload (direct oracle)")
     for c in cases:
         if c.get("oracle_fail"):
             res.violations.append({"what": c["oracle_fail"], "case": slim(c), "family": "reader", "signature": sig(c)})
